@@ -252,20 +252,30 @@ class SurfaceSpy:
     def __enter__(self):
         from t4_geom_convert.Kernel.Volume import CellConversion as CC
         self.captured = []
-        self.real = CC.hexLatticeBaseVectors
+        # the name under which CellConversion calls it; when a rewrite calls it
+        # some other way nothing is captured and the surface-list ties simply
+        # have no cases from this conversion (tie:develophex still observes
+        # the call of develop_lattice)
+        self.real = getattr(CC, 'hexLatticeBaseVectors', None)
+        if self.real is None:
+            return self
 
         def spy(surfaces):
-            self.captured.append(
-                [((tuple(float(x) for x in pl[0]),
-                   tuple(float(x) for x in pl[1])), int(side))
-                 for pl, side in surfaces])
+            try:
+                self.captured.append(
+                    [((tuple(float(x) for x in pl[0]),
+                       tuple(float(x) for x in pl[1])), int(side))
+                     for pl, side in surfaces])
+            except Exception:       # pylint: disable=broad-except
+                pass
             return self.real(surfaces)
         CC.hexLatticeBaseVectors = spy
         return self
 
     def __exit__(self, *exc):
         from t4_geom_convert.Kernel.Volume import CellConversion as CC
-        CC.hexLatticeBaseVectors = self.real
+        if self.real is not None:
+            CC.hexLatticeBaseVectors = self.real
         return False
 
 
@@ -331,17 +341,42 @@ UNREACHABLE = [
 ]
 
 
-def anchored_functions():
-    from t4_geom_convert.Kernel import VectUtils as VU
-    from t4_geom_convert.Kernel.Volume import Lattice as LT
-    from t4_geom_convert.Kernel.Volume.CellConversion import CellConversion
-    from t4_geom_convert.Kernel.Surface import MacroBodies as MB
-    return [VU.pointInPlaneIntersection, VU.planeSide, VU.projectPointOnPlane,
-            VU.rotate, VU.planeParamsFromNormalAndPoint,
-            LT.areHexSidesAdjacent, LT.hexSortSides, LT.hexVertices,
-            LT.hexLatticeBaseVectors, LT.latticeVector,
-            CellConversion.develop_lattice, CellConversion.extract_surfaces,
-            MB.rhp]
+def anchored_functions(missing=None):
+    """The anchored functions that exist in the tree under test (a name that a
+    rewrite removed is recorded in `missing`, never an error)."""
+    import importlib
+    wanted = [
+        ('t4_geom_convert.Kernel.VectUtils',
+         ['pointInPlaneIntersection', 'planeSide', 'projectPointOnPlane',
+          'rotate', 'planeParamsFromNormalAndPoint']),
+        ('t4_geom_convert.Kernel.Volume.Lattice',
+         ['areHexSidesAdjacent', 'hexSortSides', 'hexVertices',
+          'hexLatticeBaseVectors', 'latticeVector']),
+        ('t4_geom_convert.Kernel.Volume.CellConversion',
+         ['CellConversion.develop_lattice', 'CellConversion.extract_surfaces']),
+        ('t4_geom_convert.Kernel.Surface.MacroBodies', ['rhp']),
+    ]
+    found = []
+    for modname, names in wanted:
+        try:
+            obj0 = importlib.import_module(modname)
+        except Exception:       # pylint: disable=broad-except
+            if missing is not None:
+                missing.append(modname)
+            continue
+        for name in names:
+            obj = obj0
+            for part in name.split('.'):
+                obj = getattr(obj, part, None)
+                if obj is None:
+                    break
+            if obj is None or not hasattr(getattr(obj, '__func__', obj),
+                                          '__code__'):
+                if missing is not None:
+                    missing.append(f'{modname}.{name}')
+                continue
+            found.append(obj)
+    return found
 
 
 def convert_watchdog(text, secs=30.0, trace=False):
@@ -787,32 +822,40 @@ def run(res, tier, seed, proofs_ok):
     '''Ties and sweep; the first 250 admissible prisms, every malformed one and
     the first 30 conversions run under a line tracer restricted to the
     anchored functions: every line a LAT=2 input can reach must be executed.'''
-    import c02_cov
     global COV
-    cov = COV = c02_cov.LineCov(anchored_functions())
+    cov, cov_missing = None, []
+    try:
+        import c02_cov
+        cov = COV = c02_cov.LineCov(anchored_functions(cov_missing))
+    except Exception as exc:       # pylint: disable=broad-except
+        cov = COV = None
+        cov_missing.append(f'coverage tracer not available: {exc!r}')
     try:
         _run(res, tier, seed, proofs_ok)
     finally:
         COV = None
         COV_ON[0] = False
-    total, missing = cov.missing(UNREACHABLE)
-    import linecache
-    from t4_geom_convert.Kernel.Volume import CellConversion as ccmod
-    # the raise that follows the 'at least n bounds' message (see UNREACHABLE)
-    missing = [m for m in missing
-               if not (m[2] == 'raise LatticeError(msg)' and 'at least' in
-                       linecache.getline(ccmod.__file__, m[1] - 1))]
-    res.obligation('coverage: the generated inputs execute every reachable line '
-                   f'of the anchored functions ({total} lines of '
-                   f'{len(cov.codes)} code objects)', not missing,
-                   f'never executed: {missing[:6]}')
-    if missing:
-        res.violation('harness-error',
-                      'generated inputs no longer reach these lines of the '
-                      f'anchored code (strengthen the generators): {missing[:8]}',
-                      {'theorem_or_correspondence': 'coverage',
-                       'input': {'lines': [list(m) for m in missing[:20]]}},
-                      found_input=False)
+    # line coverage is information only: it never fails the check and never raises
+    try:
+        if cov is not None:
+            import linecache
+            total, missing = cov.missing(UNREACHABLE)
+            try:
+                from t4_geom_convert.Kernel.Volume import CellConversion as ccmod
+                missing = [m for m in missing
+                           if not (m[2] == 'raise LatticeError(msg)' and 'at least'
+                                   in linecache.getline(ccmod.__file__, m[1] - 1))]
+            except Exception:       # pylint: disable=broad-except
+                pass
+            res.obligation('coverage: the generated inputs execute every '
+                           'reachable line of the anchored functions '
+                           f'({total} lines of {len(cov.codes)} code objects)',
+                           not missing, f'never executed: {missing[:6]}; '
+                           f'anchored names not present: {cov_missing}')
+        else:
+            res.count('coverage skipped: ' + '; '.join(cov_missing)[:200])
+    except Exception as exc:       # pylint: disable=broad-except
+        res.count(f'coverage pass failed: {exc!r}'[:200])
 
 
 def _run(res, tier, seed, proofs_ok):
